@@ -167,6 +167,9 @@ def preferred_to_registered(
                 _supports = supported.get(REGISTER2PREFERRED[key])
                 if _is_subset(val, _supports):
                     registered[key] = val
+                elif _is_subset(val, prefers.get(REGISTER2PREFERRED[key])):
+                    # Something I asked for
+                    registered[key] = val
                 else:
                     logger.warning(
                         f"OP tells me to do something I do not support: {key} = {val} not within "
